@@ -55,20 +55,41 @@ def proof_modules(prop):
     return sorted(f[:-5] for f in os.listdir(d) if re.fullmatch(re.escape(prop) + r'([a-z][A-Za-z0-9]*)?\.lean', f))
 
 
-def forbidden_everywhere():
-    """forbidden constructs (outside comments) in any source file of the Lean library"""
+def import_closure(mods):
+    """source files of the Lean library reachable (transitively, through `import FancyModel...`) from the given modules"""
+    seen, todo = {}, list(mods)
+    while todo:
+        m = todo.pop()
+        if m in seen:
+            continue
+        path = os.path.join(LEAN, *m.split('.')) + '.lean'
+        if not os.path.exists(path):
+            continue
+        src = open(path).read()
+        seen[m] = src
+        todo += re.findall(r'^import\s+(FancyModel\.\S+)', src, re.M)
+    return seen
+
+
+def forbidden_everywhere(mods=None):
+    """forbidden constructs (outside comments) in every source file the given proof modules depend on
+    (default: the whole library)"""
     bad = []
-    for root, _, files in os.walk(os.path.join(LEAN, 'FancyModel')):
-        for f in files:
-            if not f.endswith('.lean') or f.startswith('_audit_'):
-                continue
-            src = open(os.path.join(root, f)).read()
-            code = re.sub(r'/-.*?-/', '', src, flags=re.S)
-            code = re.sub(r'--.*', '', code)
-            for w in ['sorry', 'admit', 'native_decide', 'bv_decide', 'implemented_by', 'unsafe ', 'maxHeartbeats 0']:
-                if re.search(r'(?<![A-Za-z0-9_.])' + re.escape(w.strip()) + r'(?![A-Za-z0-9_])', code):
-                    bad.append('%s in %s' % (w.strip(), f))
-            bad += ['%s in %s' % (a, f) for a in re.findall(r'^axiom\s+\S+', code, re.M)]
+    if mods is None:
+        srcs = {}
+        for root, _, files in os.walk(os.path.join(LEAN, 'FancyModel')):
+            for f in files:
+                if f.endswith('.lean') and not f.startswith('_audit_'):
+                    srcs[f] = open(os.path.join(root, f)).read()
+    else:
+        srcs = import_closure(mods)
+    for f, src in sorted(srcs.items()):
+        code = re.sub(r'/-.*?-/', '', src, flags=re.S)
+        code = re.sub(r'--.*', '', code)
+        for w in ['sorry', 'admit', 'native_decide', 'bv_decide', 'implemented_by', 'unsafe ', 'maxHeartbeats 0']:
+            if re.search(r'(?<![A-Za-z0-9_.])' + re.escape(w.strip()) + r'(?![A-Za-z0-9_])', code):
+                bad.append('%s in %s' % (w.strip(), f))
+        bad += ['%s in %s' % (a, f) for a in re.findall(r'^axiom\s+\S+', code, re.M)]
     return bad
 
 
